@@ -458,7 +458,7 @@ class CMapParser(PSStackParser[PSKeyword]):
                     prefix = code[:-4]
                     vlen = len(var)
                     for i in range(min(end - start + 1, self.MAX_RANGE)):
-                        x = prefix + struct.pack(">L", base + i)[-vlen:]
+                        x = prefix + struct.pack(">L", (base + i) & 0xFFFFFFFF)[-vlen:]
                         self.cmap.add_cid2unichr(start + i, x)
             return
 
